@@ -1,6 +1,7 @@
 #!/bin/bash
 here=$(cd "$(dirname "$0")/.." && pwd)
+dir=${1:-_refactors}
 for g in A C D B; do for i in 1 2 3; do
-  p=/tmp/wt-R$g/_refactors/r$i/patch.diff
+  p=/tmp/wt-R$g/$dir/r$i/patch.diff
   [ -f $p ] && { echo "##### R$g r$i"; bash $here/tools/refactor_check.sh /tmp/wt-R$g $p; }
 done; done
